@@ -908,6 +908,60 @@ def rule_ctx_history(ctx):
                nontrivial=True, fn=top)
 
 
+def rule_icc_ctx_eval(ctx):
+    """get_icc_ctx, evaluated from MIR, is the format's 41-context function"""
+    from .. import absint
+    rid = "R-ICC-CTX"
+    ctx.rule(rid, "the entropy-coded ICC byte stream uses 41 contexts: 0 for the first 129 bytes, then 1 + kind1(previous byte) + 8 * "
+                  "kind2(the byte before it), with kind1 in 0..7 (letters; digits . ,; 0; 1; 2..15; 241..254; 255; other) and kind2 in "
+                  "0..4 (letters; digits . ,; 0..15; 241..255; other) - ISO/IEC 18181-1, ICC annex.  jxl_color::icc::decode::get_icc_ctx "
+                  "is evaluated from MIR for every previous byte against 14 representative second bytes, every second byte against 14 "
+                  "representative previous bytes, and the index boundary 127 / 128 / 129 / 130, and compared with that definition.  "
+                  "A context that differs for one byte value decodes every profile containing it wrongly")
+    col = ctx.prog.crate("jxl_color")
+    f = col.fn("jxl_color::icc::decode::get_icc_ctx")
+    if f is None or f.argc != 3:
+        ctx.anchor_missing(rid, "jxl_color::icc::decode::get_icc_ctx(idx, b1, b2)")
+        return
+    ctx.seen(f)
+
+    def letter(b):
+        return 97 <= b <= 122 or 65 <= b <= 90
+
+    def digit(b):
+        return 48 <= b <= 57 or b in (46, 44)
+
+    def k1(b):
+        return 0 if letter(b) else 1 if digit(b) else 2 if b == 0 else 3 if b == 1 else 4 if b < 16 else 6 if b == 255 else 5 if b > 240 else 7
+
+    def k2(b):
+        return 0 if letter(b) else 1 if digit(b) else 2 if b < 16 else 3 if b > 240 else 4
+    reps = [0, 1, 2, 15, 16, 44, 46, 48, 65, 97, 122, 240, 241, 255]
+    cases = [(500, a, b) for a in range(256) for b in reps] + [(500, a, b) for a in reps for b in range(256)]
+    cases += [(i, a, b) for i in (0, 127, 128, 129, 130, 1 << 20) for a in (0, 65, 200) for b in (1, 250)]
+    rows, bad, undec = 0, None, None
+    for idx, b1, b2 in cases:
+        ev = absint.Evaluator(ctx.prog)
+        try:
+            got = ev.call_fn(f, [idx, b1, b2])
+        except absint.Unsupported as e:
+            undec = "idx %d, b1 %d, b2 %d: %s" % (idx, b1, b2, e)
+            break
+        rows += 1
+        want = 0 if idx <= 128 else 1 + k1(b1) + 8 * k2(b2)
+        if got != want and bad is None:
+            bad = (idx, b1, b2, got, want)
+    ctx.count(rid + ".rows", rows)
+    if undec:
+        ctx.bad(rid, "get_icc_ctx|not-evaluable", "get_icc_ctx is no longer a function the evaluator can decide (%s)" % undec, fn=f)
+        return
+    ctx.floor(rid + ".rows", 7000)
+    if bad:
+        ctx.bad(rid, "get_icc_ctx|table", "byte index %d, previous bytes %d, %d: context %s, the format says %d" % bad, fn=f)
+    else:
+        ctx.ok(rid, "get_icc_ctx|table", "%d evaluations equal the format's context function" % rows, nontrivial=True, fn=f)
+
+
 def rule_shuffle_eval(ctx):
     """shuffle2 / shuffle4, evaluated from MIR on byte strings of every small length, are the format's transpositions"""
     from .. import absint
@@ -1007,6 +1061,7 @@ def main(pid, tier, repo=None):
     rule_shuffle_eval(ctx)
     rule_interp_eval(ctx)
     rule_ctx_history(ctx)
+    rule_icc_ctx_eval(ctx)
     # no unwrap/expect/index panic on the error path: decode_icc returns Result and converts slice errors
     ctx.not_decided("byte equality of the decoded profile with the embedded one for EVERY encoding (value-level round trip): the interpreter is "
                     "compared with the format on 53 scripted streams and the shuffles on 20 lengths, not on all streams; the entropy-coded "
